@@ -175,6 +175,10 @@ theorem makeUniSites_ok : C06.makeUniSites = Expected.makeUniSites := rfl
 theorem asciiSites_ok : C06.asciiSites = Expected.asciiSites := rfl
 theorem asciiLiterals_ok : C06.asciiLiteralsAllAscii = true := rfl
 theorem asciiLiteralCount_ok : C06.asciiLiteralCount = Expected.asciiLiteralCount := rfl
+/-- the two comparisons of unistring.Scan (counting pass: two units iff `chr > 0xFFFF`; fill pass: one unit iff
+`chr <= 0xFFFF`) are the ones `Model.countUnits` / `Model.fillUnits` use (Props.scanTwoPass_eq_scan depends on them) -/
+theorem scanTests_ok : (GojaModel.Generated.C06.scanCountTest, GojaModel.Generated.C06.scanFillTest) =
+    (GojaModel.C06.scanCountTest, GojaModel.C06.scanFillTest) := rfl
 /-- the eager-scan threshold of Runtime.ToValue(string) is the one the model uses -/
 theorem eagerMax_ok : C06.toValueEagerMax = GojaModel.C06.eagerMax := rfl
 
